@@ -64,6 +64,7 @@ func enumC128(c *core.Ctx, classLen, fullLen, macroLen int) {
 }
 
 func c05Body(c *core.Ctx) {
+	defer seqPairs(c, "c128")
 	cl, fl, ml := pick(c, 6, 8), pick(c, 2, 3), pick(c, 5, 6)
 	enumC128(c, cl, fl, ml)
 	c.R.Bound("class_words", fmt.Sprintf("all words <= %d over %q", cl, c128Class))
@@ -158,6 +159,7 @@ func enumEAN(c *core.Ctx, all8 bool, family3 bool) {
 }
 
 func c06Body(c *core.Ctx) {
+	defer seqPairs(c, "ean")
 	enumEAN(c, c.Thorough(), c.Thorough())
 	if c.Thorough() {
 		c.R.Bound("eight_digit", "all 10^8 eight-digit strings")
@@ -227,6 +229,7 @@ func enumC39C93(c *core.Ctx, fams []string, wordLen int) {
 }
 
 func c07Body(c *core.Ctx) {
+	defer seqPairs(c, "c39", "c93")
 	wl := pick(c, 2, 3)
 	enumC39C93(c, []string{"c39", "c93"}, wl)
 	c.R.Bound("words", fmt.Sprintf("all words <= %d over the full alphabet (basic: 43 characters + '*' + FNC1-4 + 'a','é',0xFF; full ASCII: 0..127 + 'é',0x80) x includeChecksum x fullASCII x {Code 39, Code 93}", wl))
@@ -278,6 +281,7 @@ func enumC08(c *core.Ctx, cbLen, tofLen int) {
 }
 
 func c08Body(c *core.Ctx) {
+	defer seqPairs(c, "codabar", "tof")
 	cl, tl := pick(c, 5, 6), pick(c, 6, 7)
 	enumC08(c, cl, tl)
 	c.R.Bound("codabar", fmt.Sprintf("all words <= %d over its 20 characters + 'E'", cl))
